@@ -1,107 +1,101 @@
-"""Prototype: convert real tree-sitter CSTs (fragment F0) to the typed Coq concrete syntax and
-emit correspondence shards (source, cfile, implementation output); comparison happens inside Coq."""
-import sys, random, re
-import os; sys.path.insert(0, os.environ.get('NIMA_REPO','/repo'))
+"""Render correspondence for fragment F0: generated documents (canonical, or with every whitespace gap rewritten
+arbitrarily: spaces, tabs, newlines, blank-line runs; own-line and end-of-line comments) are parsed by the real
+tree-sitter, the real CST is converted to the model's concrete syntax, and inside Coq we check, per document:
+tiling (text of the converted tree = source), model round trip = implementation output, formatter spec =
+implementation output, text of the canonicalised tree = implementation output, the canonicalised tree satisfies
+`canonical_file`, and — for canonical inputs — that `canonical_file` holds of the input and the output is the input.
+The spec-level comparisons are required inside the decidable domain guard wf_fileb (the hypothesis of the theorems).
+usage: f0_corr.py SEED N OUTDIR PREFIX"""
+import json, os, random, re, sys
+from common import write_shards
+seed, N, outdir, prefix = int(sys.argv[1]), int(sys.argv[2]), sys.argv[3], sys.argv[4]
+from gen_docs import DocGen2, perturb
 from nix_manipulator import parse
 from nix_manipulator.parser import parse_to_ast
 class Unsupported(Exception): pass
-ATOMS={'variable_expression','integer_expression','float_expression','string_expression','indented_string_expression','path_expression','hpath_expression','spath_expression','select_expression'}
-def q(s):
-    return '(s "' + s.replace('"','""') + '")'
+ATOMS = {'variable_expression', 'integer_expression', 'float_expression', 'string_expression', 'indented_string_expression', 'path_expression', 'hpath_expression', 'spath_expression', 'select_expression'}
+def q(s): return '(s "' + s.replace('"', '""') + '")'
 class Conv:
-    def __init__(self, src): self.b=src.encode()
-    def gap(self,a,b): 
-        g=self.b[a:b].decode()
-        if g.strip(' \t\n'): raise Unsupported('non-ws gap %r'%g)
+    def __init__(self, src): self.b = src.encode()
+    def gap(self, a, b):
+        g = self.b[a:b].decode()
+        if g.strip(' \t\n'): raise Unsupported('non-ws gap %r' % g)
         return g
-    def node(self,n):
-        t=n.type
-        if t=='comment':
-            txt=n.text.decode()
-            if '\n' in txt or txt=='/**/': raise Unsupported('ml comment')
-            return 'CCmt %s'%q(txt)
+    def node(self, n):
+        t = n.type
+        if t == 'comment':
+            txt = n.text.decode()
+            if '\n' in txt or txt == '/**/': raise Unsupported('ml comment')
+            return 'CCmt %s' % q(txt)
         if t in ATOMS:
-            if t=='select_expression':
-                if any(c.type=='comment' for c in n.children) or n.child_by_field_name('default') is not None or re.search(r'\s', n.text.decode()): raise Unsupported('select')
-                if n.child_by_field_name('expression').type!='variable_expression': raise Unsupported('select base')
-            return 'CAtom %s %s'%('true' if t=='integer_expression' else 'false', q(n.text.decode()))
-        if t=='binding':
-            ch=n.children
-            if [c.type for c in ch][:2]!=['attrpath','='] or len(ch)!=4 or ch[3].type!=';' or ch[2].type=='comment': raise Unsupported('binding shape')
-            name=ch[0].text.decode()
-            if re.search(r'\s|#|/\*', re.sub(r'"[^"]*"','Q',name)): raise Unsupported('attrpath ws')
-            return 'CBind %s %s %s (%s) %s'%(q(name), q(self.gap(ch[0].end_byte,ch[1].start_byte)), q(self.gap(ch[1].end_byte,ch[2].start_byte)), self.node(ch[2]), q(self.gap(ch[2].end_byte,ch[3].start_byte)))
-        if t in ('attrset_expression','rec_attrset_expression','list_expression'):
-            is_set = t!='list_expression'
-            op,cl=('{','}') if is_set else ('[',']')
-            ch=n.children
-            opening=[c for c in ch if c.type==op][0]; closing=[c for c in ch if c.type==cl][-1]
-            grec='""'
-            if t=='rec_attrset_expression':
-                rec=[c for c in ch if c.type=='rec'][0]
-                if any(c.type=='comment' and c.start_byte<opening.start_byte for c in ch): raise Unsupported('rec comment')
-                grec=q(self.gap(rec.end_byte, opening.start_byte))
-            content=[]
+            if t == 'select_expression':
+                if any(c.type == 'comment' for c in n.children) or n.child_by_field_name('default') is not None or re.search(r'\s', n.text.decode()): raise Unsupported('select')
+                if n.child_by_field_name('expression').type != 'variable_expression': raise Unsupported('select base')
+            return 'CAtom %s %s' % ('true' if t == 'integer_expression' else 'false', q(n.text.decode()))
+        if t == 'binding':
+            ch = n.children
+            if [c.type for c in ch][:2] != ['attrpath', '='] or len(ch) != 4 or ch[3].type != ';' or ch[2].type == 'comment': raise Unsupported('binding shape')
+            name = ch[0].text.decode()
+            if re.search(r'\s|#|/\*', re.sub(r'"[^"]*"', 'Q', name)): raise Unsupported('attrpath ws')
+            return 'CBind %s %s %s (%s) %s' % (q(name), q(self.gap(ch[0].end_byte, ch[1].start_byte)), q(self.gap(ch[1].end_byte, ch[2].start_byte)), self.node(ch[2]), q(self.gap(ch[2].end_byte, ch[3].start_byte)))
+        if t in ('attrset_expression', 'rec_attrset_expression', 'list_expression'):
+            is_set = t != 'list_expression'
+            op, cl = ('{', '}') if is_set else ('[', ']')
+            ch = n.children
+            opening = [c for c in ch if c.type == op][0]; closing = [c for c in ch if c.type == cl][-1]
+            grec = None
+            if t == 'rec_attrset_expression':
+                rec = [c for c in ch if c.type == 'rec'][0]
+                if any(c.type == 'comment' and c.start_byte < opening.start_byte for c in ch): raise Unsupported('rec comment')
+                grec = q(self.gap(rec.end_byte, opening.start_byte))
+            content = []
             for c in ch:
-                if c.type in (op,cl,'rec'): continue
-                if c.type=='binding_set': content.extend(c.children)
+                if c.type in (op, cl, 'rec'): continue
+                if c.type == 'binding_set': content.extend(c.children)
                 else: content.append(c)
-            items=[]; prev_end=opening.end_byte
+            items = []; prev_end = opening.end_byte
             for c in content:
-                if is_set and c.type not in ('binding','comment'): raise Unsupported(c.type)
-                items.append('(%s, %s)'%(q(self.gap(prev_end,c.start_byte)), self.node(c))); prev_end=c.end_byte
-            body='['+'; '.join(items)+']'
-            cg=q(self.gap(prev_end, closing.start_byte))
-            if is_set: return 'CSet %s %s %s %s'%('true' if t=='rec_attrset_expression' else 'false', grec if grec!='""' else '(s "")', body, cg)
-            return 'CList %s %s'%(body,cg)
+                if is_set and c.type not in ('binding', 'comment'): raise Unsupported(c.type)
+                items.append('(%s, %s)' % (q(self.gap(prev_end, c.start_byte)), self.node(c))); prev_end = c.end_byte
+            body = '[' + '; '.join(items) + ']'
+            cg = q(self.gap(prev_end, closing.start_byte))
+            if is_set: return 'CSet %s %s %s %s' % ('true' if t == 'rec_attrset_expression' else 'false', grec or '(s "")', body, cg)
+            return 'CList %s %s' % (body, cg)
         raise Unsupported(t)
     def file(self, root):
         if root.has_error: raise Unsupported('error')
-        if root.start_byte!=0: raise Unsupported('leading ws')
-        items=[]; prev_end=root.start_byte
+        if root.start_byte != 0: raise Unsupported('leading ws')
+        items = []; prev_end = root.start_byte
         for c in root.children:
-            items.append('(%s, %s)'%(q(self.gap(prev_end,c.start_byte)), self.node(c))); prev_end=c.end_byte
-        return '{| f_children := [%s]; f_tail := %s |}'%('; '.join(items), q(self.gap(prev_end, root.end_byte)))
-def convert(src):
-    root=parse_to_ast(src)
-    return Conv(src).file(root)
-if __name__=='__main__':
-    seed=int(sys.argv[1]); N=int(sys.argv[2]); out=sys.argv[3]
-    sys.argv=[sys.argv[0], str(seed), '0']
-    exec(open('/verif/notes/probes/gen_canon2.py').read().split('bad=0')[0])
-    R2=random.Random(seed+1000)
-    src_spec=open('/verif/notes/probes/spec_f0.py').read()
-    # reuse the perturbation of spec_f0.py
-    OPAQ=('string_expression','indented_string_expression','comment','path_expression','spath_expression','hpath_expression','select_expression','attrpath')
-    def leaves(n,o):
-        if n.type in OPAQ or n.child_count==0:
-            if n.end_byte>n.start_byte: o.append(n)
-            return
-        for c in n.children: leaves(c,o)
-    WS=[' ','  ','\t',' \t ','\n','\n\n','\n  ','\n      ',' \n ','\n\n\n   ','   \n\t\n ','\n\t']
-    def perturb(s):
-        root=parse_to_ast(s); o=[]; leaves(root,o); b=s.encode(); res=''; pos=0
-        for i,n in enumerate(o):
-            g=b[pos:n.start_byte].decode()
-            if i>0:
-                if o[i-1].type=='comment' and o[i-1].text.startswith(b'#'): g=R2.choice(['\n','\n\n','\n   ','\n\n\n\t'])
-                elif n.type=='comment': g = g if R2.random()<0.5 else (R2.choice(WS) if '\n' in g else R2.choice([' ','   ','\t']))
-                elif R2.random()<0.5: g = R2.choice(WS) if g else R2.choice(['',' ','\n'])
-            res+=g+n.text.decode(); pos=n.end_byte
-        return res+b[pos:].decode()
-    cases=[]; skipped=0
-    while len(cases)<N:
-        d=doc(); p=perturb(d) if R2.random()<0.8 else d
-        if parse_to_ast(p).has_error or len(p)>900: continue
-        try: c=convert(p)
-        except Unsupported as e: skipped+=1; continue
-        cases.append((p, c, parse(p).rebuild()))
-    with open(out,'w') as f:
-        f.write('From Coq Require Import List Ascii String. Import ListNotations.\nFrom F0 Require Import F0.\nOpen Scope string_scope.\n')
-        f.write('Definition cases : list (str * cfile * str) := [\n')
-        f.write(';\n'.join('(%s, %s, %s)'%(q(p),c,q(r)) for p,c,r in cases))
-        f.write('\n].\n')
-        f.write('Definition eqs (a b : str) : bool := if list_eq_dec ascii_dec a b then true else false.\n')
-        f.write('Fixpoint bad (i : nat) (l : list (str * cfile * str)) : list (nat * bool * bool) :=\n  match l with [] => [] | (src, f, expected) :: r =>\n    let t := eqs (ftext f) src in let m := eqs (roundtrip f) expected in\n    if andb t m then bad (S i) r else (i, t, m) :: bad (S i) r end.\n')
-        f.write('Eval vm_compute in bad 0 cases.\n')
-    print('cases', len(cases), 'skipped', skipped)
+            items.append('(%s, %s)' % (q(self.gap(prev_end, c.start_byte)), self.node(c))); prev_end = c.end_byte
+        return '{| f_children := [%s]; f_tail := %s |}' % ('; '.join(items), q(self.gap(prev_end, root.end_byte)))
+R = random.Random(seed); G = DocGen2(R); R2 = random.Random(seed + 1000)
+cases, stats, samples = [], {'canonical_inputs': 0, 'perturbed_inputs': 0, 'skipped_outside_fragment': 0, 'fixed_points': 0}, []
+while len(cases) < N:
+    d = G.doc(); pert = R2.random() < 0.75
+    p = perturb(R2, d, parse_to_ast) if pert else d
+    if parse_to_ast(p).has_error or len(p) > 900: continue
+    try: c = Conv(p).file(parse_to_ast(p))
+    except Unsupported: stats['skipped_outside_fragment'] += 1; continue
+    out = parse(p).rebuild()
+    stats['perturbed_inputs' if pert else 'canonical_inputs'] += 1
+    stats['fixed_points'] += out == p
+    cases.append('(%s, %s, %s, %s)' % (q(p), c, q(out), 'true' if out == p else 'false'))
+    if len(samples) < 3: samples.append({'source': p, 'implementation_output': out})
+HDR = ('From Coq Require Import List Ascii String Bool. Import ListNotations.\nFrom F0 Require Import F0s Specs Canon Canonize P18.\nOpen Scope string_scope.\nOpen Scope bool_scope.\n'
+       'Definition eqs (a b : str) : bool := if list_eq_dec ascii_dec a b then true else false.\n')
+OK = ("Definition ok (c : str * cfile * str * bool) : bool :=\n  let '(src, f, expected, fixed) := c in\n"
+      "  eqs (ftext f) src && eqs (roundtrip f) expected &&\n"
+      "  (negb (wf_fileb f) || (eqs (spec_file f) expected && eqs (ftext (canon_file f)) expected && canonical_file (canon_file f)\n"
+      "                         && Bool.eqb (canonical_file f) fixed)).\n")
+# the guard count is printed by each shard as a second answer
+import common
+common.BAD = common.BAD
+write_shards(outdir, prefix, HDR, 'str * cfile * str * bool', OK, cases, 16)
+for fn in os.listdir(outdir):
+    if re.fullmatch(re.escape(prefix) + r'_\d+\.v', fn):
+        open(os.path.join(outdir, fn), 'a').write('Eval vm_compute in ("inside_guard", List.length (filter (fun c => wf_fileb (snd (fst (fst c)))) cases)).\n')
+json.dump({'stats': stats, 'keys': [], 'distinct_count': len(set(cases)),
+           'rule': 'F0 documents from the grammar-directed generator (sets, rec, lists, attrpath and quoted names, opaque atoms, comments of every single-line spelling, blank lines, every final-newline situation), 75% with every inter-token gap rewritten (spaces, tabs, newlines, blank runs); converted from the REAL tree-sitter CST; distinct = distinct sources',
+           'samples': samples}, open(os.path.join(outdir, prefix + '_summary.json'), 'w'))
+print(len(cases))
